@@ -1449,6 +1449,7 @@ func (t *TypeSystem) hasCycle(
 	objectType, relationName string,
 	rewrite *openfgav1.Userset,
 	visited map[string]struct{},
+	acyclic map[string]struct{},
 ) (bool, error) {
 	visited[fmt.Sprintf("%s#%s", objectType, relationName)] = struct{}{}
 
@@ -1466,12 +1467,24 @@ func (t *TypeSystem) hasCycle(
 			return true, nil
 		}
 
+		// A relation that was explored completely without finding a cycle cannot lead back to any
+		// relation on the current path either (that would be a cycle through it), so it is explored
+		// once: without this, a relation referenced twice at every level costs 2^depth.
+		if _, ok := acyclic[fmt.Sprintf("%s#%s", objectType, rewrittenRelation)]; ok {
+			return false, nil
+		}
+
 		rewrittenRewrite, err := t.GetRelation(objectType, rewrittenRelation)
 		if err != nil {
 			return false, err
 		}
 
-		return t.hasCycle(objectType, rewrittenRelation, rewrittenRewrite.GetRewrite(), visitedCopy)
+		hasCycle, err := t.hasCycle(objectType, rewrittenRelation, rewrittenRewrite.GetRewrite(), visitedCopy, acyclic)
+		if err == nil && !hasCycle {
+			acyclic[fmt.Sprintf("%s#%s", objectType, rewrittenRelation)] = struct{}{}
+		}
+
+		return hasCycle, err
 	case *openfgav1.Userset_Union:
 		children = append(children, rw.Union.GetChild()...)
 	case *openfgav1.Userset_Intersection:
@@ -1481,7 +1494,7 @@ func (t *TypeSystem) hasCycle(
 	}
 
 	for _, child := range children {
-		hasCycle, err := t.hasCycle(objectType, relationName, child, visitedCopy)
+		hasCycle, err := t.hasCycle(objectType, relationName, child, visitedCopy, acyclic)
 		if err != nil {
 			return false, err
 		}
@@ -1504,7 +1517,7 @@ func (t *TypeSystem) HasCycle(objectType, relationName string) (bool, error) {
 		return false, err
 	}
 
-	return t.hasCycle(objectType, relationName, relation.GetRewrite(), visited)
+	return t.hasCycle(objectType, relationName, relation.GetRewrite(), visited, map[string]struct{}{})
 }
 
 // IsTuplesetRelation returns a boolean indicating if the provided relation is defined under a
